@@ -1,18 +1,23 @@
-"""tools/mkagent.py <ID>... : create /tmp/wt_<id> (scratch worktree of /repo HEAD), /tmp/seed_<id>/{1,2} and print the sub-agent prompt path."""
+"""tools/mkagent.py [-r ROUND] <ID>... : create /tmp/wt_<id>[rROUND] (scratch worktree of /repo HEAD), /tmp/seed_<id>[rROUND]/{1,2} and print the sub-agent prompt path."""
 import json, os, subprocess, sys
 props = {json.loads(l)['id']: json.loads(l) for l in open('/verif/properties.jsonl')}
-T = open('/tmp/agent_prompt_c29.txt').read()
+T = open('/verif/tools/agent_prompt_template.txt').read()
+ROUND = ''
+if sys.argv[1] == '-r':
+    ROUND = 'r' + sys.argv[2]
+    del sys.argv[1:3]
+HINT = ('Prefer a change in a less central code path (a helper, an option, a rarely taken branch, a second implementation of the same idea) over the most obvious function.\n' if ROUND else '')
 head, rest = T.split('----\n', 1)
 _, tail = rest.rsplit('----\n', 1)
 for pid in sys.argv[1:]:
     p = props[pid]
-    lid = pid.lower()
+    lid = pid.lower() + ROUND
     wt = '/tmp/wt_' + lid
     if not os.path.exists(wt):
         subprocess.check_call(['git', '-C', '/repo', 'worktree', 'add', '--detach', '-q', wt, 'HEAD'])
     for n in '12':
         os.makedirs('/tmp/seed_%s/%s' % (lid, n), exist_ok=True)
     body = "%s - %s\n\n%s\n\nQuantifier: %s\n\nAnchors (files): %s\n\n" % (pid, p['title'], p['statement'], p['quantifier']['text'], ', '.join(p['anchors']['files']))
-    txt = (head + '----\n' + body + '----\n' + tail).replace('c29', lid).replace('C29', pid)
+    txt = (head + '----\n' + body + '----\n' + tail.replace('Think of the kind', HINT + 'Think of the kind')).replace('c29', lid).replace('C29', pid)
     open('/tmp/agent_prompt_%s.txt' % lid, 'w').write(txt)
     print('/tmp/agent_prompt_%s.txt' % lid)
